@@ -138,9 +138,12 @@ _ELEMENTWISE = {
     "math.floor": "floor", "numpy.ceil": "ceil", "math.ceil": "ceil", "numpy.abs": "abs", "builtins.abs": "abs",
     "scipy.special.zeta": "zeta", "numpy.log1p": "log1p", "numpy.round": "round", "numpy.around": "round", "builtins.round": "round", "numpy.rint": "round",
     "numpy.trunc": "trunc", "math.trunc": "trunc", "numpy.fix": "trunc", "numpy.sign": "sign", "numpy.absolute": "abs", "numpy.fabs": "abs",
-    "numpy.nan_to_num": "nan_to_num", "numpy.clip": "clip", "builtins.int": "toint", "numpy.int64": "toint", "numpy.int32": "toint",
+    "numpy.nan_to_num": "nan_to_num", "numpy.clip": "clip", "builtins.int": "toint", "numpy.int64": "toint", "numpy.int32": "toint", "numpy.size": "size",
 }
 _SUMS = {"numpy.sum", "builtins.sum"}
+_PARTIAL_SCALAR = {"math.log", "math.sqrt", "math.log2", "math.log10", "math.log1p"}
+# repository functions whose documented range contains 0 (no coincidence / empty intersection): a partial logarithm of them raises on valid inputs
+_ZERO_IN_RANGE = {"pyrepseq.stats." + n for n in ("pc", "pc_joint", "pc_conditional", "pc_n", "jaccard_index", "overlap", "overlap_coefficient", "stdpc", "stdpc_joint", "varpc_n")}
 _IDENTITY = {"numpy.asarray", "numpy.array", "pyrepseq.util.ensure_numpy", "builtins.float", "numpy.float64"}
 
 
@@ -266,6 +269,15 @@ class RFContext:
                 return self.length_of(args[0])
             if name in self.identity and len(args) >= 1:
                 return self.rf(args[0])
+            if name in _PARTIAL_SCALAR and len(args) == 1 and not kw:
+                # math.log / math.sqrt raise where the numpy functions return -inf / nan (and on arrays): the same value only on their domain
+                a0 = strip(args[0])
+                if not (is_const(a0) or head(a0) == "param"):
+                    from .terms import walk
+                    zero = sorted({strip(x[1])[1] for x in walk(("t", a0)) if head(x) == "call" and head(strip(x[1])) == "glob" and strip(x[1])[1] in _ZERO_IN_RANGE})
+                    if zero:
+                        return self.fn("partial:" + name, [self.rf(a) for a in args])
+                    raise AnalysisBroken(f"{name} is partial (raises at 0, below 0 and on arrays) where the numpy function is total; whether {show(a0, 60)} stays inside its domain cannot be decided")
             if name in _ELEMENTWISE and not kw:
                 return self.fn(_ELEMENTWISE[name], [self.rf(a) for a in args])
             if name in _BINFUNCS and len(args) == 2 and not kw:
